@@ -328,7 +328,8 @@ def gen_edit_op(rng, nm, lib, libnodes):
                     'node_del_child', 'scene_node', 'source_data', 'add_prim', 'del_prim', 'geom_double_sided',
                     'effect_set', 'effect_shader', 'effect_misc', 'sampler_filters', 'surface_format', 'light_set',
                     'camera_set', 'asset', 'contributor_set', 'matnode_inputs', 'geomnode_materials', 'add', 'add_source',
-                    'swap_positions', 'swap_positions', 'effect_set', 'effect_set'])
+                    'swap_positions', 'swap_positions', 'effect_set', 'effect_set', 'replace_asset', 'replace_asset',
+                    'replace_object', 'replace_object', 'replace_object', 'replace_scene'])
     i, j = rng.randrange(8), rng.randrange(8)
     if k == 'rename':
         return [k, rng.choice(['geometries', 'lights', 'cameras', 'images', 'effects', 'materials', 'scenes']), i, nm.fresh()]
@@ -355,6 +356,25 @@ def gen_edit_op(rng, nm, lib, libnodes):
         return [k, i, j, rng.randint(1, 5)]
     if k == 'swap_positions':
         return [k, i, nm.fresh()]
+    if k == 'replace_asset':
+        return [k, gen_asset(rng, nm)]
+    if k == 'replace_scene':
+        return [k, i]
+    if k == 'replace_object':
+        which = rng.choice(['lights', 'cameras', 'images', 'effects', 'materials', 'geometries'])
+        if which == 'lights':
+            r = gen_light(rng, nm)
+        elif which == 'cameras':
+            r = gen_camera(rng, nm)
+        elif which == 'images':
+            r = {'path': rng.choice(['new/tex.png', 'z.jpg'])}
+        elif which == 'effects':
+            r = gen_effect(rng, nm, [])
+        elif which == 'materials':
+            r = {'name': nm.fresh()}
+        else:
+            r = gen_geometry(rng, nm, [nm.fresh()])
+        return [k, which, i, r]
     if k == 'add_source':
         return [k, i, {'kind': 'float', 'id': nm.fresh(), 'data': [dy(rng) for _ in range(2 * rng.randint(0, 3))], 'comps': ['S', 'T']}]
     if k == 'add_prim':
@@ -412,6 +432,8 @@ def expand(rng, op):
     removed and the document written, so that setting it re-introduces it into an existing element"""
     if op[0] == 'effect_set' and (op[3] is not None or op[4] is not None) and rng.random() < 0.6:
         return [[op[0], op[1], op[2], None, None], ['write'], op]
+    if op[0] in ('replace_asset', 'replace_object', 'replace_scene') and rng.random() < 0.5:
+        return [['write'], op]      # replacement on a document that was saved once already
     return [op]
 
 
@@ -653,13 +675,13 @@ def schema_signature(msg):
     return 'C04:schema:%s%s:%s' % (el, '@' + at if at else '', kind), text[:200]
 
 
-CORPUS_BASES = ['corpus:rich_base.dae']
+CORPUS_BASES = ['corpus:rich_base.dae', 'corpus:rich_base.dae+split', 'duck_triangles.dae+split']
 
 
 def base_path(name):
     if name.startswith('corpus:'):
-        return os.path.join(core.VERIF, 'corpus', 'C04', name.split(':', 1)[1])
-    return os.path.join(core.REPO, 'collada', 'tests', 'data', name)
+        return os.path.join(core.VERIF, 'corpus', 'C04', name.split(':', 1)[1].replace('+split', ''))
+    return os.path.join(core.REPO, 'collada', 'tests', 'data', name.replace('+split', ''))
 
 
 class Harness:
@@ -671,7 +693,10 @@ class Harness:
     def base(self, name):
         """shrunk shipped document (bytes), or None when it is not a schema-valid base"""
         if name not in self.bases:
-            self.bases[name] = c04enc.shrink_dae(open(base_path(name), 'rb').read())
+            if name.endswith('+split'):
+                self.bases[name] = c04enc.split_libraries(self.base(name[:-6]))
+            else:
+                self.bases[name] = c04enc.shrink_dae(open(base_path(name), 'rb').read())
         return self.bases[name]
 
     def run_recipes(self, recipes):
@@ -725,7 +750,7 @@ def run(ctx):
             ctx.log('shipped file %s unusable: %r' % (name, e))
             continue
         xdocs.append(('shipped-shrunk:' + name, small))
-        if len(full) < 20000:
+        if len(full) < 20000 and not name.endswith('+split'):
             xdocs.append(('shipped:' + name, full))
     if have_xl:
         ver = H.xl.validate_many([d for _, d in xdocs])
